@@ -7,6 +7,8 @@ use std::io::{BufRead, Write};
 #[macro_use]
 mod util;
 mod txgen;
+mod addr;
+mod psetl;
 include!("registry.rs");
 
 pub struct Out {
@@ -42,7 +44,7 @@ fn emit(w: &mut dyn Write, case: &Case) {
 }
 
 fn main() {
-    std::panic::set_hook(Box::new(|_| {}));
+    if std::env::var("HARNESS_DEBUG").is_err() { std::panic::set_hook(Box::new(|_| {})); }
     let args: Vec<String> = std::env::args().collect();
     let stdout = std::io::stdout();
     let mut w = std::io::BufWriter::new(stdout.lock());
